@@ -57,19 +57,20 @@ type PluginConf struct {
 
 // HostConf is the client side of a cell.
 type HostConf struct {
-	Allowed         []string `json:"allowed"` // nil = default
-	TLS             string   `json:"tls"`     // none | static | auto
-	Mux             bool     `json:"mux"`
-	Launch          string   `json:"launch"` // cmd | runner | reattach
-	Legacy          int      `json:"legacy"` // -1 none
-	Versions        []int    `json:"versions,omitempty"`
-	SkipHostEnv     bool     `json:"skip_host_env"`
-	Conflict        string   `json:"conflict,omitempty"` // cmd+reattach | secure+reattach | mux+reattach
-	Script          string   `json:"script,omitempty"`   // plugin is this shell script
-	StartTimeoutMs  int      `json:"start_timeout_ms,omitempty"`
-	StartTimeoutNs  int      `json:"start_timeout_ns,omitempty"`  // a start timeout shorter than the launch itself
-	GRPCBlock       bool     `json:"grpc_block,omitempty"`        // ClientConfig.GRPCDialOptions = [grpc.WithBlock()]
-	SharedSocketCfg bool     `json:"shared_socket_cfg,omitempty"` // every client of the cell gets the same *UnixSocketConfig
+	Allowed           []string `json:"allowed"` // nil = default
+	TLS               string   `json:"tls"`     // none | static | auto
+	Mux               bool     `json:"mux"`
+	Launch            string   `json:"launch"` // cmd | runner | reattach
+	Legacy            int      `json:"legacy"` // -1 none
+	Versions          []int    `json:"versions,omitempty"`
+	SkipHostEnv       bool     `json:"skip_host_env"`
+	Conflict          string   `json:"conflict,omitempty"` // cmd+reattach | secure+reattach | mux+reattach
+	Script            string   `json:"script,omitempty"`   // plugin is this shell script
+	StartTimeoutMs    int      `json:"start_timeout_ms,omitempty"`
+	StartTimeoutNs    int      `json:"start_timeout_ns,omitempty"`     // a start timeout shorter than the launch itself
+	GRPCBlock         bool     `json:"grpc_block,omitempty"`           // ClientConfig.GRPCDialOptions = [grpc.WithBlock()]
+	GRPCDialTimeoutMs int      `json:"grpc_dial_timeout_ms,omitempty"` // with GRPCBlock: grpc.WithTimeout
+	SharedSocketCfg   bool     `json:"shared_socket_cfg,omitempty"`    // every client of the cell gets the same *UnixSocketConfig
 	// the application had set Cmd.Stdin before handing the command to go-plugin: "idle-pipe" = the read end of an
 	// io.Pipe that stays open and silent (os/exec copies such a reader through a goroutine that cmd.Wait waits for)
 	PresetStdin  string `json:"preset_stdin,omitempty"`
@@ -384,6 +385,9 @@ func RunCell(c *Cell) (res *Result) {
 		}
 		if c.Host.GRPCBlock {
 			cfg.GRPCDialOptions = []grpc.DialOption{grpc.WithBlock()}
+			if c.Host.GRPCDialTimeoutMs > 0 {
+				cfg.GRPCDialOptions = append(cfg.GRPCDialOptions, grpc.WithTimeout(time.Duration(c.Host.GRPCDialTimeoutMs)*time.Millisecond))
+			}
 		}
 		if c.Host.StartTimeoutNs > 0 {
 			cfg.StartTimeout = time.Duration(c.Host.StartTimeoutNs)
